@@ -109,6 +109,9 @@ package subscription
 //@   ghost var g_dup bool = false
 //@   at call ExecutorEngine.checkForDuplicateSubscriberID: ghost g_dupChecked = true
 //@   at call ExecutorEngine.checkForDuplicateSubscriberID: ghost g_dup = result1 != nil
+//@   ghost var g_released bool = false
+//@   at call? subscriptionCancellations.Cancel: ghost g_released = true
+//@   ensures {an.operation.that.is.refused.leaves.no.id.registered} result != nil ==> !(g_dupChecked && !g_dup) || g_released
 //@   modifies *, count(*)
 
 // interfaces used by the protocol handlers (package websocket)
